@@ -61,12 +61,25 @@ func checkSeq(s seqCase, pinFirst bool) (string, caseStat) {
 	var st caseStat
 	led := &ledger{keep: s.Keep}
 	seen := map[string]bool{}
-	reached, packed, large := 0, false, 0
+	reached, packed, large, fencedN := 0, false, 0, 0
+	var made []*arena
+	defer func() {
+		for _, a := range made {
+			a.release()
+		}
+	}()
 	for i, step := range s.Steps {
 		for g := 0; g < step.GC; g++ {
 			runtime.GC()
 		}
 		msg, cst, a := runMem(step.C)
+		made = append(made, a)
+		// fenced memory of an earlier call is read-only for good: a later call that writes it faults (whatever it does afterwards)
+		if a.foreignFault != 0 {
+			if j, what, w := led.locate(a.foreignFault); w != "" {
+				return fmt.Sprintf("step %d (%s) wrote to memory the caller had handed to the EARLIER call of step %d (%s): %s was written (the pages of a call that has returned are mapped read-only: the write faulted at address %#x)", i, step.C.Op+"/"+step.C.Alg+"/"+step.C.Mode, j, what, w, a.foreignFault), st
+			}
+		}
 		// first the memory of the earlier calls: the message then names the call that owned it
 		if j, what, m := led.verify(); m != "" {
 			return fmt.Sprintf("step %d (%s) wrote to memory the caller had handed to the EARLIER call of step %d (%s): %s", i, step.C.Op+"/"+step.C.Alg+"/"+step.C.Mode, j, what, m), st
@@ -81,6 +94,9 @@ func checkSeq(s seqCase, pinFirst bool) (string, caseStat) {
 		for _, c := range cst.classes {
 			if c == "layout.packed" {
 				packed = true
+			}
+			if c == "mem.fenced" {
+				fencedN++
 			}
 			if c == "size.large.reached.with-spare" {
 				large++
@@ -107,6 +123,12 @@ func checkSeq(s seqCase, pinFirst bool) (string, caseStat) {
 	if packed {
 		st.classes = append(st.classes, "seq.with-packed-layout")
 	}
+	if fencedN > 0 {
+		st.classes = append(st.classes, "seq.with-fenced-calls")
+		if fencedN < len(s.Steps) {
+			st.classes = append(st.classes, "seq.fenced-and-heap-calls")
+		}
+	}
 	switch {
 	case large >= 2:
 		st.classes = append(st.classes, "seq.large-calls.2+")
@@ -127,6 +149,7 @@ func template(o op, alg, mode string, i int) memCase {
 	if o.DstOp {
 		c.Dst, c.DstLen = dstForms[i%len(dstForms)], 5
 	}
+	c.Mem = sweepMem(i)
 	return c
 }
 
